@@ -363,6 +363,7 @@ int vnadata_resize(vnadata_t *vdp, vnadata_parameter_type_t type,
     vnadata_internal_t *vdip;
     int old_ports, new_ports;
     int old_cells, new_cells;
+    int old_m_allocation;
 
     /*
      * Check parameters
@@ -414,14 +415,20 @@ int vnadata_resize(vnadata_t *vdp, vnadata_parameter_type_t type,
     /*
      * Extend the matrix allocation within old_f_allocation as needed.
      */
+    old_m_allocation = vdip->vdi_m_allocation;
     if (_vnadata_extend_m(vdip, new_cells) == -1) {
 	return -1;
     }
 
     /*
-     * Extend the frequency allocation as needed.
+     * Extend the frequency allocation as needed.  If that fails before
+     * any row of the new size exists, forget the new row size: a request
+     * that was too large must not make every later one as expensive.
      */
     if (_vnadata_extend_f(vdip, frequencies) == -1) {
+	if (vdip->vdi_f_allocation == 0) {
+	    vdip->vdi_m_allocation = old_m_allocation;
+	}
 	return -1;
     }
 
